@@ -181,6 +181,41 @@ func cmdC02Matrix(args []string) {
 				"cell": key, "program": "Custom fn keeps its *T; the property calls " + how + " on it after the draw", "verdict": verdict, "index": key})
 		}
 	}
+	// a fatal failure in a Custom generator function whose own deferred function then skips (the skip replaces the
+	// fatal failure's panic; the failure flag on the enclosing T's is what keeps the falsification)
+	for vi, how := range []string{"fatalf", "fatal", "failnow"} {
+		key := how + "/custom-fatal-then-deferred-skip/first"
+		if *only != "" && *only != key {
+			continue
+		}
+		g := rapid.Custom(func(t *rapid.T) int {
+			v := rapid.IntRange(0, 9).Draw(t, "v")
+			defer func() { t.Skip("deferred skip") }()
+			switch how {
+			case "fatalf":
+				t.Fatalf("fatal %d", 7)
+			case "fatal":
+				t.Fatal("fatal")
+			default:
+				t.FailNow()
+			}
+			return v
+		})
+		nested := rapid.Custom(func(t *rapid.T) int { return g.Draw(t, "inner") })
+		prop := func(t *rapid.T) { _ = nested.Draw(t, "g") }
+		old := setFlags(20, (*seed+uint64(vi))|1, 0, true)
+		tb := &recTB{name: "T"}
+		esc := runTB(func() { rapid.Check(tb, prop) })
+		rapid.VerifSetFlags(old)
+		verdict, _, _, _, _ := classifyTB(tb)
+		stats["cells"]++
+		stats["cells_signalled"]++
+		stats["verdict_"+verdict]++
+		if esc != nil || !tb.failed || !(verdict == "failed" || verdict == "panic") {
+			fails = append(fails, map[string]any{"property": "C02", "what": "a failure signal was lost: fatal in custom-fatal-then-deferred-skip",
+				"cell": key, "program": "nested Custom fn: " + how + ", then its deferred function calls Skip", "verdict": verdict, "index": key})
+		}
+	}
 	js, _ := json.Marshal(map[string]any{"stats": stats, "failures": fails, "samples": samples})
 	fmt.Println(string(js))
 }
